@@ -94,10 +94,22 @@ def run(ctx, rep):
                 self.release()
                 return False
         extra = {"__calls__": {"Timeout": mk, "Lock": lambda: _MLock(False), "threading.Lock": lambda: _MLock(False),
-                               "RLock": lambda: _MLock(True), "threading.RLock": lambda: _MLock(True)},
+                               "RLock": lambda: _MLock(True), "threading.RLock": lambda: _MLock(True),
+                               "weakref.proxy": lambda o, *a: _Weak(o), "weakref.ref": lambda o, *a: _Weak(o),
+                               "proxy": lambda o, *a: _Weak(o), "ref": lambda o, *a: _Weak(o)},
                  "__methods__": meths, "__max_iter__": 200}
-        MI.call_method(meths["__init__"], state, [_Conn()], extra)
+        conn_ = _Conn()
+        MI.call_method(meths["__init__"], state, [conn_], extra)
+        held_strongly[:] = [any(v is conn_ for v in state.values())]
         return state, ttl, extra
+    held_strongly = []
+
+    class _Weak:
+        """what weakref.proxy / weakref.ref give: no ownership of the referent"""
+        mi_native = True
+
+        def __init__(self, o):
+            self.referent = o
 
     def add_cb(state, extra, fn):
         MI.call_method(meths["add_callback"], state, [fn], extra)
@@ -108,6 +120,15 @@ def run(ctx, rep):
     def outcome(state):
         return {k: state.get(k) for k in ("_is_ready", "_is_exc", "_obj")}
     bad1, bad3 = [], []
+    try:
+        fresh_result()
+        rep.ob("R15.1", "AsyncResult.__init__: a pending result holds its connection strongly", bool(held_strongly and held_strongly[0]),
+               "self._conn is the connection object itself" if held_strongly and held_strongly[0] else
+               "the result object keeps no strong reference to its connection (a weak proxy / nothing): a caller that holds only the "
+               "result loses the connection to the garbage collector - Connection.__del__ closes it under the pending request and "
+               "wait()/value/ready raise ReferenceError instead of the outcome or the timeout", arc.methods["__init__"].loc, kind="model")
+    except (MI.Raised, AnalysisError):
+        pass
     try:
         # (0) a new result has no deadline of its own: only set_expiry() gives it one
         state, ttl, extra = fresh_result()
